@@ -227,11 +227,11 @@ def make_harness(op, s, m, kvn, vvn, factory=plain_factory):
         ret_t = ret_r = None
         try:
             ret_t = apply_trait(op, td, key, value, pairs)
-        except (KeyError, TraitError, TypeError, ValueError) as e:
+        except (KeyError, TraitError, TypeError, ValueError, AttributeError, LookupError, RuntimeError, NameError, ArithmeticError) as e:
             exc_t = type(e).__name__
         try:
             ret_r = apply_ref(op, ref, key, value, pairs, kv, vv)
-        except (KeyError, TraitError, TypeError, ValueError) as e:
+        except (KeyError, TraitError, TypeError, ValueError, AttributeError, LookupError, RuntimeError, NameError, ArithmeticError) as e:
             exc_r = type(e).__name__
         after = dict(td)
         ex.check(exc_t == exc_r, "same exception class as dict (TraitError for an invalid key/value)")
